@@ -233,6 +233,25 @@ func (d *Disk) canon(p string, depth int) (string, syscall.Errno) {
 	return real, 0
 }
 
+// RealPath resolves the symbolic links in the longest existing prefix of p (like
+// `realpath -m`): the path under which a file written to p really ends up.
+func (d *Disk) RealPath(p string) string {
+	d.mu.Lock()
+	defer d.mu.Unlock()
+	p = d.abs(p)
+	rest := ""
+	for dir := p; ; {
+		if real, e := d.canon(dir, 0); e == 0 {
+			return path.Clean(real + "/" + rest)
+		}
+		if dir == "/" {
+			return p
+		}
+		rest = path.Base(dir) + "/" + rest
+		dir = path.Dir(dir)
+	}
+}
+
 // createTarget resolves the path at which an O_CREAT open of p creates or opens a
 // file: symlinks in the final component are followed even when they dangle.
 func (d *Disk) createTarget(p string) (*inode, string, syscall.Errno) {
@@ -1016,6 +1035,17 @@ func (d *Disk) Touch(p string) {
 	if n, e := d.walk(p, true, 0); e == 0 {
 		n.mtime = d.stamp()
 	}
+}
+
+// LinkTarget returns the target of the symbolic link at p ("" if it is none).
+func (d *Disk) LinkTarget(p string) string {
+	d.mu.Lock()
+	defer d.mu.Unlock()
+	n, e := d.walk(p, false, 0)
+	if e != 0 || n.kind != kSymlink {
+		return ""
+	}
+	return n.target
 }
 
 func (d *Disk) Symlink(target, p string) {
